@@ -81,6 +81,7 @@ struct vf_ctx {
 };
 
 static __thread struct vf_ctx *vf_tls VF_UNUSED;
+static volatile int vf_zero VF_UNUSED;	/* always 0: lets generated code build compound arguments */
 static struct vf_ctx *vf_all[64];
 static int vf_nall;
 
@@ -457,6 +458,21 @@ static VF_UNUSED int vf_read_idx(struct vf_ctx *c, int idx, char *buf, size_t ma
 			continue;
 		return -1;
 	}
+}
+
+/* read(2) replacement for scanners built with %option read: the descriptor of a source's
+ * (real, temporary) file is served from the source with the read schedule and the fault
+ * plan, so short reads, EINTR and errors reach the scanner's own read loop */
+static VF_UNUSED ssize_t vf_sys_read(int fd, void *buf, size_t n)
+{
+	struct vf_ctx *c = vf_tls;
+	int i;
+	if (c && (c->flags & 2)) {
+		for (i = 0; i < c->nsrc; ++i)
+			if (c->src[i].fp && fileno(c->src[i].fp) == fd)
+				return (ssize_t) vf_src_read(&c->src[i], (char *) buf, n);
+	}
+	return (read)(fd, buf, n);
 }
 
 static ssize_t vf_cookie_read(void *ck, char *buf, size_t size)
